@@ -8,7 +8,8 @@ LEVEL_TEXT = ('ServerSet._send_all_removed (deletion of the watched path): after
               'every previously announced member gets exactly one leave notification and a raising consumer callback stops nothing. '
               '_on_set_changed (children callback): the child-name cache becomes the filtered listing and exactly (listed now and not before, listed before and not now) is queued for the worker, for every listing. '
               '_get_info / _safe_zk_node_to_member: reading a member touches no ServerSet state (frame condition: the name cache and the member cache are written only by the children callback, the worker and _send_all_removed); a node deleted in between reads as None. '
-              '_notification_worker: a departed member is removed from the member cache before its leave callback runs (a raising callback leaves nothing behind, no second leave later), one notification per departed/joined member, no consumer exception ends the loop.')
+              '_notification_worker: a departed member is removed from the member cache before its leave callback runs (a raising callback leaves nothing behind, no second leave later), one notification per departed/joined member, no consumer exception ends the loop.'
+              ' The worker is verified under interference: whenever it is descheduled (queue get, callback blocker, ZooKeeper reads) the member and child-name caches may have been replaced by the children callback or the path-deleted handler, so a cache reference taken before a read must not be used after it.')
 LEVEL_NOTE = ('Trusted: pyvc encoding, z3; Kazoo DataWatch/ChildrenWatch deliver callbacks serially with the current stat / child list; _zk_nodes_to_members (a list comprehension over a nested generator) has an assumed contract -- its only callee with effects is verified. '
               'Not under contract: __iter__/get_members, _monitor/_data_changed/_begin_watch (watch registration), the agreement of the consumer view with the actual znode tree over a whole history (needs Kazoo\'s delivery semantics).')
 ASSUMPTIONS = ['Kazoo watch semantics', 'dictionary iteration visits every entry exactly once']
